@@ -113,9 +113,9 @@ def run(ctx):
             vs = [s["v"] for s in c["script"]]
             return sum(v in ANSWERS for v in vs) + sum(v in ("rm", "rc") for v in vs) >= 2
         core = [c for c in long_ if dense(c) and c["env"] == "ok"]
-        core = rng.sample(core, min(len(core), 4000))
+        core = rng.sample(core, min(len(core), 3000))
         rest = [c for c in long_ if not (dense(c) and c["env"] == "ok")]
-        picked = short + core + rng.sample(rest, min(len(rest), 4000))
+        picked = short + core + rng.sample(rest, min(len(rest), 3000))
     else:
         # every chain of length <= 3 (exhaustive) and a VERIF_SEED sample of the chains of length 4
         four = [c for c in cases if len(c["chain"]) > 3]
@@ -175,6 +175,13 @@ def run(ctx):
                 return
             end = next((j for j in range(line, len(evs) + 1) if evs[j - 1]["ev"] == "quiesce"), line)
             sig = signature(kind, case)
+            rt = evs[st - 1:end]
+            if kind == "client-got-a-different-response" and str(case.get("env", "")).startswith("aterm") and \
+                    any(e.get("ev") == "note" and e.get("what") == "us.recv" and str(e.get("a", "")).startswith("dropped") for e in rt) and \
+                    any(e.get("ev") == "cdone" and e.get("status") == 200 for e in rt):
+                # root cause visible in the trace: the upstream's answer lost against TerminateStream and was dropped by the
+                # proxy, yet the client got the upstream's status instead of the termination's
+                sig = "C14:local-reply-status-overwritten-by-dropped-upstream-response"
             kinds_seen[kind] = kinds_seen.get(kind, 0) + 1
             vlib.report_failure(ctx, sig, dict(line=line - st, kind=kind, case=case, run_trace=evs[st - 1:end]))
         for line, kinds in sorted(mm.items()):
